@@ -412,9 +412,22 @@ func init() {
 	})
 	reg(zz+"Crashed", func(fr *frame, args []value) value {
 		before := len(fr.i.sched.crashed)
+		diedInGoroutine := false
 		panicked := func() (p bool) {
 			defer func() {
 				if r := recover(); r != nil {
+					if os.Getenv("SYMGO_DEBUG") != "" {
+						fmt.Fprintf(os.Stderr, "Crashed recovered %T %v crashed=%d before=%d\n", r, r, len(fr.i.sched.crashed), before)
+					}
+					if ap, ok := r.(*abortPath); ok && ap.Kind == "goroutine-panic" && len(fr.i.sched.crashed) > before {
+						p = true // the process died from a panic in a goroutine started by f
+						for _, g := range fr.i.sched.crashed[before:] {
+							fr.i.ps.Res.Observed = append(fr.i.ps.Res.Observed, "goroutine-panic="+panicString(g.panicv))
+						}
+						fr.i.sched.crashed = fr.i.sched.crashed[:before]
+						diedInGoroutine = true
+						return
+					}
 					if isControl(r) {
 						panic(r)
 					}
@@ -433,7 +446,7 @@ func init() {
 			}
 			fr.i.sched.crashed = fr.i.sched.crashed[:before]
 		}
-		return tuple{panicked || inG, inG}
+		return tuple{panicked || inG, inG || diedInGoroutine}
 	})
 	reg(zz+"Logger", func(fr *frame, args []value) value {
 		pkg := fr.i.prog.ImportedPackage("github.com/sirupsen/logrus")
